@@ -14,10 +14,21 @@ theorem source_seen_made_per_render : Generated.seenMapMadePerRender = true := b
 /-- (1) a marked element whose id was already seen in this render is skipped: the siblings are evaluated as if it were not there -/
 theorem once_skips_when_seen (W : World) (f : Nat) (ctx : Ctx) (st : St) (tag : Str) (attrs : List Attr) (kids rest : List Node)
     (h1 : hasAttr attrs (S "v-once") = true) (h2 : hasAttr attrs (S "v-for") = false)
+    (h3 : hasAttr attrs (S "v-if") = false) (h4 : hasAttr attrs (S "v-else-if") = false) (h5 : hasAttr attrs (S "v-else") = false)
     (hseen : getAttr attrs (S "v-once-id") ∈ st.seen) :
     evalList W (f + 1) ctx st (.elem tag attrs kids :: rest) = evalList W f ctx st rest := by
   have : st.seen.contains (getAttr attrs (S "v-once-id")) = true := by simpa using hseen
-  simp only [evalList, h1, h2, Bool.not_false, Bool.and_self, this, ↓reduceIte]
+  have hh : onceHereOf attrs = true := by simp [onceHereOf, h1, h2, h3, h4, h5]
+  simp only [evalList, hh, Bool.true_and, this, ↓reduceIte]
+
+/-- … the same for an element that carries `v-pre`, whatever chain directives it also carries (v-pre switches them off) -/
+theorem once_skips_when_seen_pre (W : World) (f : Nat) (ctx : Ctx) (st : St) (tag : Str) (attrs : List Attr) (kids rest : List Node)
+    (h1 : hasAttr attrs (S "v-once") = true) (h2 : hasAttr attrs (S "v-for") = false) (hpre : hasAttr attrs (S "v-pre") = true)
+    (hseen : getAttr attrs (S "v-once-id") ∈ st.seen) :
+    evalList W (f + 1) ctx st (.elem tag attrs kids :: rest) = evalList W f ctx st rest := by
+  have : st.seen.contains (getAttr attrs (S "v-once-id")) = true := by simpa using hseen
+  have hh : onceHereOf attrs = true := by simp [onceHereOf, h1, h2, hpre]
+  simp only [evalList, hh, Bool.true_and, this, ↓reduceIte]
 
 /-- (2) the first visit marks the id: whatever happens afterwards in this render, the id stays in `seen` (the set only grows) … -/
 theorem seen_only_grows (W : World) (f : Nat) (ctx : Ctx) (st st' : St) (nodes out : List Node)
@@ -31,7 +42,8 @@ theorem once_marks_seen (W : World) (f : Nat) (ctx : Ctx) (st st' : St) (tag : S
     (h : evalList W (f + 1) ctx st (.elem tag attrs kids :: rest) = .ok (out, st')) :
     getAttr attrs (S "v-once-id") ∈ st'.seen := by
   have hc : st.seen.contains (getAttr attrs (S "v-once-id")) = false := by simpa using hnot
-  simp only [evalList, h1, h2, Bool.not_false, Bool.and_self, hc, Bool.and_false, Bool.false_eq_true, ↓reduceIte, hpre] at h
+  have hh : onceHereOf attrs = true := by simp [onceHereOf, h1, h2, hpre]
+  simp only [evalList, hh, hc, Bool.and_false, Bool.false_eq_true, ↓reduceIte, hpre] at h
   obtain ⟨o, ho, _⟩ := prepend_ok h
   exact seen_only_grows W f ctx { st with seen := st.seen ++ [getAttr attrs (S "v-once-id")] } st' rest o hs ho _ (by simp)
 
